@@ -133,7 +133,7 @@ func TestVerifC17Agree(t *testing.T) {
 	defer st.Flush()
 	docsPerType := verifkit.EnvInt("docs", 3)
 	rapid.Check(t, func(t *rapid.T) {
-		tp, excl := verifc17.GenStruct(t, verifc17.Cfg{MaxDepth: 3})
+		tp, excl := verifc17.GenStruct(t, c17Cfg(verifc17.Cfg{MaxDepth: 3}))
 		for k, n := range excl {
 			st.ClassN("excluded-shape:"+k, n)
 			for i := 0; i < n; i++ {
@@ -531,4 +531,14 @@ func FuzzVerifC17Agree(f *testing.F) {
 			st.NonTrivial(fmt.Sprintf("%s | fuzz | %s", rt, data))
 		}
 	})
+}
+
+// c17Cfg keeps the type shapes of the C08 findings D9a/D9c (a pointer whose element is a
+// map or slice) and D9b (a map whose element is a pointer to a primitive) out of the family
+// only while they are listed as known; by default they are generated.
+func c17Cfg(cfg verifc17.Cfg) verifc17.Cfg {
+	kf := verifkit.KnownFindings("C08")
+	cfg.ExcludePtrToContainer = kf["D9a"] || kf["D9c"] || kf["D9"]
+	cfg.ExcludeMapOfPtrToPrim = kf["D9b"] || kf["D9"]
+	return cfg
 }
